@@ -11,20 +11,39 @@ Open Scope N_scope.
 
 (* Crash image: for EVERY history with crashes at arbitrary points and arbitrarily
    many crash - continue - crash rounds, for every value of every background-sync
-   coin, over the whole alphabet except create_dir_all / remove_dir_all /
-   remove_dir, that meets no known class (FsSafe), creates no directory where a
-   file was unlinked since the last crash (KindSwap) and whose crashes find every
-   durable entry reachable through durable ancestors: every observation of the
-   implementation — before, between and after the crashes — is the observation of
-   the reference tree with the durable image substituted at each crash.
+   coin, for every torn-write block size bs (0 = none) and every sequence of
+   torn-write draws, over the whole alphabet except create_dir_all /
+   remove_dir_all / remove_dir, that meets no known class (FsSafe), creates no
+   directory where a file was unlinked since the last crash (KindSwap) and whose
+   crashes find every durable entry reachable through durable ancestors: every
+   observation of the implementation — before, between and after the crashes —
+   is the observation of the reference tree with the durable image substituted
+   at each crash.
    Hence after a crash a file is present iff its entry was made durable by a
    sync of its parent and not durably removed; its contents are those of its last
-   data sync (explicit, or a coin); unsynced creates, writes, truncations and
-   removals are rolled back.  Block size 0 (no torn writes): see partial_note. *)
-Theorem c07_crash_image : forall l,
-  forallb c07_op l = true -> dsafe 0 l = true ->
-  Forall2 obs_ok (snd (drun (init_dworld 0) l)) (snd (run (init_world 0) l)).
+   data sync (explicit, or a coin), overlaid in issue order by the first k*bs
+   bytes of each write issued since then (k = the draw of that write; nothing
+   with bs = 0); unsynced creates, truncations and removals are rolled back. *)
+Theorem c07_crash_image : forall bs l,
+  forallb c07_op l = true -> dsafe bs l = true ->
+  Forall2 obs_ok (snd (drun (init_dworld bs) l)) (snd (run (init_world bs) l)).
 Proof. exact crash_image_lemma. Qed.
+
+(* Torn writes: what a crash with block size bs > 0 does to the durable contents
+   (the definition read back): the contents of the last data sync, overlaid in
+   issue order by a block-aligned prefix (first min (k*bs) len bytes, k the draw)
+   of each pending write of a file with a durable entry; pending truncations are
+   dropped.  c07_crash_image (any bs) says the implementation does exactly this. *)
+Theorem c07_torn : forall bs m cont i off data ws draws,
+  durable_ino m i = true -> data <> [] ->
+  torn bs m cont ((i, off, data) :: ws) draws =
+  torn bs m (let n := Nat.min (hd 0%nat draws * bs) (length data) in
+             if (n =? 0)%nat then cont else iset cont i (write_bytes (iget cont i) off (firstn n data)))
+       ws (tl draws).
+Proof.
+  intros bs m cont i off data ws draws Hd Hne. cbn [torn]. rewrite Hd.
+  destruct data; [congruence|]. reflexivity.
+Qed.
 
 (* What the image says (the definitions read back): a durable file entry carries
    exactly the contents of its last data sync; a path without a durable entry does
@@ -80,7 +99,13 @@ Example c07_nonvacuous :
   dimpl_out 0 hd_demo 16 = OBytes [65; 66; 67; 89].
 Proof. vm_compute. repeat split; reflexivity. Qed.
 
+Example c07_torn_nonvacuous :
+  forallb c07_op hd_torn = true /\ dsafe 2 hd_torn = true /\
+  dimpl_out 2 hd_torn 7 = OBytes [65; 88; 89; 68; 69] /\ dspec_out 2 hd_torn 7 = OBytes [65; 88; 89; 68; 69].
+Proof. vm_compute. repeat split; reflexivity. Qed.
+
 Print Assumptions c07_crash_image.
+Print Assumptions c07_torn.
 Print Assumptions c07_synced_never_lost.
 Print Assumptions c07_unsynced_entry_gone.
 Print Assumptions c07_no_unwritten_bytes.
@@ -89,3 +114,4 @@ Print Assumptions c07_rename_file_refuted.
 Print Assumptions c07_recreate_refuted.
 Print Assumptions c07_kind_swap_refuted.
 Print Assumptions c07_nonvacuous.
+Print Assumptions c07_torn_nonvacuous.
